@@ -105,6 +105,62 @@ def check_query(rows, query):
     return fails[:3]
 
 
+QVALS = [1.5 * units.fg, [0, 1.5 * units.fg], [2.0 * units.fg, 3], [1, [2.5 * units.fg]], [True, 'x', 0.5 * units.fg], 0, [], '']
+
+
+def qeq(a, b):
+    if isinstance(a, (list, tuple)) and isinstance(b, (list, tuple)):
+        return len(a) == len(b) and all(qeq(x, y) for x, y in zip(a, b))
+    if isinstance(a, dict) and isinstance(b, dict):
+        return set(a) == set(b) and all(qeq(a[k], b[k]) for k in a)
+    if hasattr(a, 'units') or hasattr(b, 'units'):
+        return hasattr(a, 'units') and hasattr(b, 'units') and a.units == b.units and a.magnitude == b.magnitude
+    return type(a) == type(b) and a == b
+
+
+def strip_units(v):
+    if isinstance(v, (list, tuple)):
+        return [strip_units(x) for x in v]
+    if isinstance(v, dict):
+        return {k: strip_units(x) for k, x in v.items()}
+    return v.magnitude if hasattr(v, 'magnitude') else v
+
+
+def check_emitter_views(sd):
+    """rows with unit-bearing values (also inside lists) emitted into a RAM emitter: the deserialized view reproduces every
+    emitted value, with and without a query; the unitless view is the same with magnitudes"""
+    rng = random.Random(sd)
+    fails = []
+    names = rng.sample(KEYS, rng.choice([1, 2, 3]))
+    rows = []
+    for i in range(rng.choice([1, 2, 3])):
+        rows.append((float(i), {'cell': {n: copy.deepcopy(rng.choice(QVALS + VALS)) for n in names}}))
+    em = RAMEmitter({})
+    for t, r in rows:
+        d = copy.deepcopy(r)
+        d['time'] = t
+        em.emit({'table': 'history', 'data': d})
+    try:
+        des = em.get_data_deserialized()
+        desq = em.get_data_deserialized([('cell', names[0])])
+        unitless = em.get_data_unitless()
+    except Exception as e:
+        return ['deserialized view raised %s: %s (rows %r)' % (type(e).__name__, str(e)[:150], rows)]
+    for t, r in rows:
+        for n in names:
+            want = r['cell'][n]
+            got = des.get(t, {}).get('cell', {}).get(n, KeyError)
+            if got is KeyError or not qeq(got, want):
+                fails.append('get_data_deserialized()[%s][cell][%s] is %r, emitted %r' % (t, n, got, want))
+            gotu = unitless.get(t, {}).get('cell', {}).get(n, KeyError)
+            if gotu is KeyError or not qeq(gotu, strip_units(want)):
+                fails.append('get_data_unitless()[%s][cell][%s] is %r, emitted %r' % (t, n, gotu, want))
+        gq = desq.get(t, {}).get('cell', {}).get(names[0], KeyError)
+        if gq is KeyError or not qeq(gq, r['cell'][names[0]]):
+            fails.append('get_data_deserialized(query)[%s][cell][%s] is %r, emitted %r' % (t, names[0], gq, r['cell'][names[0]]))
+    return fails[:3]
+
+
 def main():
     ap = argparse.ArgumentParser()
     ap.add_argument('--tier', default='quick'); ap.add_argument('--seed', type=int, default=0)
@@ -149,6 +205,10 @@ def main():
 
     if a.replay:
         d = json.load(open(a.replay))['scenario']
+        if 'rng_q' in d:
+            L.emit_result({'status': 'reproduced' if check_emitter_views(d['rng_q']) else 'not-reproduced',
+                           'failed': check_emitter_views(d['rng_q'])})
+            return
         fails, _, _, _ = run(d['rng'])
         L.emit_result({'status': 'reproduced' if fails else 'not-reproduced', 'failed': fails[:3]})
         return
@@ -168,6 +228,16 @@ def main():
             failures.append({'id': 'C18.bounded.views#%d: %s' % (i, fails[0][:200]), 'replay': rp})
             if len(failures) >= 3:
                 break
+    for i in range(300 if a.tier == 'quick' else 5000):
+        if len(failures) >= 3:
+            break
+        sd = 'c18q-%d-%d' % (a.seed, i)
+        evaluations += 1
+        fails = check_emitter_views(sd)
+        distinct.add(sd)
+        if fails:
+            rp = L.write_replay(a.out, 'C18', 'qviews%d' % i, {'rng_q': sd}, fails, extra={'driver': 'bounded.c18'})
+            failures.append({'id': 'C18.bounded.emitter-views#%d: %s' % (i, fails[0][:200]), 'replay': rp})
     L.emit_result({'status': 'violated' if failures else 'ok', 'evaluations': evaluations,
                    'distinct_nontrivial': len(distinct), 'failures': failures, 'samples': samples,
                    'rule': 'seeded random histories; non-trivial = >= 2 rows with at least one falsy value; distinct by content'})
